@@ -78,7 +78,9 @@ static inline std::vector<int> stretch_lengths(int size) {
 static const char *STRETCH_TEMPLATES[] = {
     "{a}:x", "{s+}://h", "//{u}@h", "//{%41}@h", "//{:}@h:1", "//{h}/", "//{H.}x:80", "//{%2d}", "//h:{1}", "//h:{0}/p", "/{a}", "{a}/b", "{a/}", "{/}", "/x{/}", "{../}x", "{./}x", "/{a/../}",
     "{c:d/}e", "./{:}", "?{q}", "?{=&}", "#{f}", "#{/?}", "{%2f}", "{%7e}", "/{%2E%2e/}", "//[v1.{a}]", "//[v{1}.a]", "//[vF.{:}]/", "s://u:p@H:8/{a/}b?{q=%41&}#{f}",
-    "//h/{a}/{b}", "s:{a}", "s:{a/}", "s:?{q}", "//1.2.3.4/{a}", "//[::1]:{1}", "//u@[A::b]/{a/}?{q}"
+    "//h/{a}/{b}", "s:{a}", "s:{a/}", "s:?{q}", "//1.2.3.4/{a}", "//[::1]:{1}", "//u@[A::b]/{a/}?{q}",
+    // dot-segment machinery under length: many removed segments in front of a path that needs its guard, long segments that only start like dot segments
+    "{./}c:d", "{x/../}c:d", "{./}/b", "/{./}/b", "{x/../}/b/c", "x/.{a}/g", "x/..{a}/g", "/.{a}", "/y/..{.}/z", "//h/{a/}{../}b"
 };
 static inline Str stretch_make(const char *tpl, int n) {
     Str out; for (const char *p = tpl; *p; p++) {
